@@ -1,5 +1,5 @@
 PROP = {
-    "groups": ["guards", "hostile", "scanners"],
+    "groups": ["guards", "hostile", "handshake", "scanners"],
     "gen": ["guards", "Skel_guards.v"],
     "timeout": 600,
     "rule": "guards: the real pipelineRecvBinaryData / recvData / recvPrefixHash / recvConfig / pipelineRecvCurrentAck / "
@@ -24,7 +24,13 @@ PROP = {
             "unescapeData with short destinations, escapeTable.UnmarshalJSON, archive header and name-record parsing are called directly "
             "under recover on every string up to length 3..7 over each scanner's own alphabet, on complete and truncated sequences with "
             "every cut into 2 and 3 chunks, on 100000-digit runs and the 100000-byte OSC 52 overflow path, and on random strings "
-            "(1.2 million calls quick); oracle: no panic, result bounded by the input",
+            "(0.7 million calls quick); oracle: no panic, result bounded by the input. "
+            "guards also runs the real pipelineRecvAck goroutine over scripted acknowledgement sequences for 25 announced buffer limits "
+            "(-2^63 .. 2^63-1) against the model of the buffer-size evolution, with the direct oracle that every size stays within "
+            "1..max(10240, limit, 1 GiB) and newSendDataWriter's make does not panic. "
+            "handshake: the real client (child process, RLIMIT_AS) and the real trz / tsz transfer 400 KB of incompressible data while one "
+            "member of the CFG or ACT line is replaced on the wire by -1, 0, 1, +-2^31, +-2^62, +-2^63, a fraction, a string, null; oracle: "
+            "no crash text, no recovered panic, both sides end within 25 s, client RSS < 600 MB",
     "trusted": ["modelled, not verified: encoding/json, zlib, zstd, base64 and the Go runtime on malformed input (exercised by the hostile group, not proved)",
                 "goroutines without recover are a structural fact (Gen/Skel_guards.recover_sites), not a theorem",
                 "totality of the progress display for unguarded steps and sizes is C20's theorem"],
